@@ -851,6 +851,16 @@ def build_harness(features=("logger",), no_default=False, tag="", extra_rustflag
 def build_model():
     """Coq model + extraction + OCaml driver.  -> (ok, driver_path, log)"""
     ok, out = vlib.coq_build(["R/Extract.vo"])
+    if not ok and "inconsistent assumptions" in out and vlib.COQ != getattr(vlib, "COQ_SRC", vlib.COQ):
+        # mirrored tree (scratch repository): compiled files copied from the main tree were built against another
+        # coq/Gen; rebuild this layer's files from scratch
+        with vlib.Lock("coq"):
+            for d in ("R", "Props"):
+                dd = os.path.join(vlib.COQ, d)
+                for f in os.listdir(dd) if os.path.isdir(dd) else []:
+                    if f.endswith((".vo", ".vos", ".vok", ".glob")) and (d == "R" or f[:3] in ("C01", "C02", "C03", "C04", "C05", "C06", "C15", "C16", "C20")):
+                        os.remove(os.path.join(dd, f))
+        ok, out = vlib.coq_build(["R/Extract.vo"])
     if not ok:
         return False, None, out
     # the extracted file must be at least as new as what it was extracted from (a mirrored tree gets the .vo files
@@ -1319,6 +1329,11 @@ def run(prop, tier, seed):
         problems.append("harness build failed: " + hlog[-1500:])
     if not okm:
         problems.append("model build failed: " + mlog[-1500:])
+        # failing-input search with the last model / monitors that did build (from the unchanged tree)
+        fallback = os.path.join(vlib.CACHE, "bin", "r_driver")
+        if os.path.exists(fallback):
+            okm, driver = True, fallback
+            problems.append("searching with the last good model and monitors: " + fallback)
     violations = []
     summ_all = dict(ok=0, ambig=0, validated=0, fuel=0)
     known_seen = {}
